@@ -271,6 +271,48 @@ theorem pca_encoded_covariance (bs : List (List Vec)) (n m : Nat) (hne : bs.flat
     · simp [e]
     · simp [e]
 
+/-- **PCA with whitening** (every dataset, partition, `m`; eigen-solver specification as in
+`pca_encoded_covariance`, `r_i = sqrt(λ_i)` specified by `r_i² = λ_i` on the components that
+are kept): the encoded training data have mean 0 and covariance `diag(1,…,1,0,…)` — 1 on every
+kept component, 0 on the components cleared because their eigenvalue is negligible. -/
+theorem pca_whitened_covariance (bs : List (List Vec)) (n m : Nat) (hne : bs.flatten ≠ [])
+    (V : Nat → Nat → Rat) (ev r : Nat → Rat) (horth : Orthonormal V n m)
+    (heig : ∀ i, i < m → ∀ j, j < n → rsum n (fun k => covariance bs j k * V k i) = ev i * V j i)
+    (hr : ∀ i, i < m → ¬ ev i ≤ (1 / 1000000000000000) * ev 0 → r i * r i = ev i ∧ r i ≠ 0) :
+    let enc := pcaEncoderWhitened V (mean bs) ev r n m
+    ∀ a, a < m → ∀ b, b < m →
+      mean (enc.applyData n bs) a = 0
+      ∧ covariance (enc.applyData n bs) a b
+          = if a = b then (if ev a ≤ (1 / 1000000000000000) * ev 0 then 0 else 1) else 0 := by
+  intro enc a ha b hb
+  obtain ⟨hm, hc⟩ := linear_image_covariance enc bs n a b ha hb hne
+  let scale : Nat → Rat := fun i => if ev i ≤ (1 / 1000000000000000) * ev 0 then 0 else 1 / r i
+  have hW : ∀ i j, enc.W i j = scale i * V j i := fun i j => rfl
+  have hb' : ∀ i, enc.b i = scale i * -(rsum n fun j => V j i * mean bs j) := fun i => rfl
+  constructor
+  · rw [hm, hb', rsum_congr (g := fun j => scale a * (V j a * mean bs j)) (fun j _ => by rw [hW]; ring),
+      rsum_mul_left]
+    ring
+  · rw [hc]
+    have h1 : ∀ i, i < n → rsum n (fun j => enc.W a i * covariance bs i j * enc.W b j)
+        = scale a * scale b * ev b * (V i a * V i b) := by
+      intro i hi
+      rw [rsum_congr (g := fun j => scale a * V i a * scale b * (covariance bs i j * V j b))
+        (fun j _ => by rw [hW, hW]; ring), rsum_mul_left, heig b hb i hi]
+      ring
+    rw [rsum_congr h1, rsum_mul_left, horth a ha b hb]
+    by_cases e : a = b
+    · subst e
+      simp only [if_true, mul_one]
+      by_cases hcl : ev a ≤ (1 / 1000000000000000) * ev 0
+      · have hs : scale a = 0 := if_pos hcl
+        rw [hs, if_pos hcl]; ring
+      · obtain ⟨h2, h3⟩ := hr a ha hcl
+        have hs : scale a = 1 / r a := if_neg hcl
+        rw [hs, if_neg hcl, ← h2]
+        field_simp
+    · simp [e]
+
 /-- **Both branches of `PCA::setData` agree** (eigen-relation `XᵀX` vs `XXᵀ`): for a centred
 design matrix `X` (`l × n`), if `u` is an eigenvector of `S = XXᵀ/l` with eigenvalue `λ`
 (small-sample branch) then the lifted direction `Xᵀu` is an eigenvector of the covariance
